@@ -717,7 +717,17 @@ def solve_matrix(matrix, mode=EXACT):
     fs = [Factoid(f) if isinstance(f, collections.abc.Iterable) else f for f in matrix]
     db = dict()
     for ft in fs:
-        insert_db(db, dfactoid(ft, ASM(ft)))
+        df = dfactoid(ft, ASM(ft))
+        # Normalise the input rows like the derived ones (one_var_analysis
+        # assumes unit coefficients on single-variable rows), and handle rows
+        # without variables here.
+        g = functools.reduce(gcd, ft.key, 0)
+        if g > 1:
+            df = dfactoid(Factoid([floor(c / g) for c in ft.coeff]), GCDCheck(df.deriv))
+        if df.factoid.is_false_factoid():
+            return "UNSAT", Contr(df.deriv)
+        if not df.factoid.is_true_factoid():
+            insert_db(db, df)
     r = solve(EXACT, db, len(matrix[0]))
     if isinstance(r, Satisfiable):
         return "SAT", r.store
